@@ -726,11 +726,7 @@ Proof. destruct p; cbn; intros H; try exact I; apply wf_netb_WF, H. Qed.
 
 Lemma mixed_ok_supported : forall b s v fp e, g6 fixed_F6 (mixed_config b s v e) = true ->
   mixed_outcome b s v fp e = Ok -> Supported (mixed_config b s v e).
-Proof.
-  intros b s v fp e G H. unfold mixed_outcome in H.
-  destruct (outcome (mixed_config b s v e)) eqn:O; cbn in H; try discriminate.
-  apply (outcome_ok_supported _ G), O.
-Qed.
+Proof. intros b s v fp e G H. apply (outcome_ok_supported _ G), H. Qed.
 Lemma pop_ok_supported : forall b s v fp e, g6 fixed_F6 (pop_config b s v e) = true ->
   pop_outcome b s v fp e = Ok -> Supported (pop_config b s v e).
 Proof.
@@ -748,12 +744,7 @@ Proof.
   destruct (existsb _ _); discriminate.
 Qed.
 Lemma mixed_not_warn : forall b s v fp e, mixed_outcome b s v fp e <> Warn.
-Proof.
-  intros b s v fp e H. unfold mixed_outcome in H.
-  destruct (outcome (mixed_config b s v e)) eqn:O; cbn in H; try discriminate.
-  - destruct (mixed_vec_crash b s v fp e); discriminate.
-  - exact (outcome_not_warn _ O).
-Qed.
+Proof. intros b s v fp e H. exact (outcome_not_warn _ H). Qed.
 
 Lemma flat_probe_ok : forall k depth net p, WFnet net -> flat_probe_result k depth net p = Ok ->
   match k with HNodeValue => NodeValueTarget net p | _ => Path3 net p end.
